@@ -104,9 +104,13 @@ func (s *sortedSet[ElementType, WeightType]) addSorted(element ElementType) {
 	if listElement, created := s.elements.GetOrCreate(element, func() *sortedSetElement[ElementType, WeightType] {
 		return newSortedSetElement(element, s)
 	}); created {
+		// the initial update is triggered by OnUpdate itself while we hold the mutex (it is always the first invocation
+		// and the invocations of a callback are serialized, so the flag needs no further synchronization)
+		initialUpdate := true
+
 		listElement.unsubscribeFromWeightUpdates = s.weightVariable(element).OnUpdate(func(_ WeightType, newWeight WeightType) {
 			// only lock if this is not the initial update
-			if listElement.unsubscribeFromWeightUpdates != nil {
+			if !initialUpdate {
 				s.mutex.Lock()
 				defer s.mutex.Unlock()
 
@@ -115,6 +119,8 @@ func (s *sortedSet[ElementType, WeightType]) addSorted(element ElementType) {
 					return
 				}
 			}
+
+			initialUpdate = false
 
 			listElement.weight = newWeight
 
